@@ -148,6 +148,33 @@ def undefined_variable_rules(ctx, m, gcc, r5: str, r8: str) -> None:
 
 
 
+def novel_keys_copied(oo: ast.AST):
+    """(ok, node, why): override_object copies every key that only the higher layer defines, unconditionally - as a loop over the
+    key difference whose body stores new[key] at its top level, or as update()/comprehension over that difference without a
+    filter.  Shared by C04.R3 (the layer wins) and C11.R7 (the validator sees every key of the document)."""
+    KNOVEL = match.role(oo, lambda v: (isinstance(v, ast.Call) and last_attr(v) == "difference") or (
+        isinstance(v, ast.BinOp) and isinstance(v.op, ast.Sub) and "keys" in source.src(v)), "keys_novel")
+    loops = [n for n in source.walk_own(oo) if isinstance(n, ast.For) and isinstance(n.iter, ast.Name) and n.iter.id == KNOVEL]
+    for lp in loops:
+        if not isinstance(lp.target, ast.Name):
+            continue
+        k = lp.target.id
+        top = [s_ for s_ in lp.body if isinstance(s_, ast.Assign) and source.src(s_.value) == "new[%s]" % k]
+        if top:
+            return True, lp, ""
+        nested = [x for x in ast.walk(lp) if isinstance(x, ast.Assign) and source.src(x.value) == "new[%s]" % k]
+        if nested:
+            conds = [a for a in source.ancestors(nested[0]) if isinstance(a, ast.If) and any(a is y for y in ast.walk(lp))]
+            return False, nested[0], "the copy is conditional on %s" % (short(conds[0].test, 50) if conds else "something")
+    comps = [c for c in ast.walk(oo) if isinstance(c, (ast.DictComp,)) and any(
+        isinstance(g.iter, ast.Name) and g.iter.id == KNOVEL for g in c.generators)]
+    for c in comps:
+        if any(g.ifs for g in c.generators):
+            return False, c, "the comprehension over the novel keys filters them (%s)" % short(c.generators[0].ifs[0], 50)
+        return True, c, ""
+    return False, oo, "no copy of the keys that only the higher layer defines was found"
+
+
 def run(ctx) -> None:
     ctx.explanation = (
         "Order of the variable layers (sequence of variables.update calls traced to their accessors) and of the option "
@@ -332,11 +359,9 @@ def run(ctx) -> None:
     KCOMMON = match.role(oo, lambda v: "intersection" in source.src(v) or (isinstance(v, ast.BinOp) and isinstance(v.op, ast.BitAnd)), "keys_common")
     KNOVEL = match.role(oo, lambda v: (isinstance(v, ast.Call) and last_attr(v) == "difference") or (isinstance(v, ast.BinOp) and isinstance(v.op, ast.Sub)
                                                                                                       and "keys" in source.src(v)), "keys_novel")
-    novel = [n for n in source.walk_own(oo) if isinstance(n, ast.For) and isinstance(n.iter, ast.Name) and n.iter.id == KNOVEL]
-    ok = bool(novel) and isinstance(novel[0].target, ast.Name) and any(
-        isinstance(s, ast.Assign) and source.src(s.value) == "new[%s]" % novel[0].target.id for s in novel[0].body)
-    ctx.ob("C04.R3-new-wins", novel[0] if novel else oo, ok, "keys only the higher layer defines are copied" if ok else
-           "novel keys of the higher layer are not copied", construct="for key in keys_novel: ret[key] = new[key]")
+    ok, where, why = novel_keys_copied(oo)
+    ctx.ob("C04.R3-new-wins", where, ok, "keys only the higher layer defines are copied, whatever their value" if ok else
+           "novel keys of the higher layer are not all copied (%s)" % why, construct="for key in keys_novel: ret[key] = new[key]")
     common = [n for n in source.walk_own(oo) if isinstance(n, ast.For) and isinstance(n.iter, ast.Name) and n.iter.id == KCOMMON]
     ok = False
     if common:
